@@ -15,7 +15,11 @@ import yaql
 from yaql.language import expressions, specs, utils, yaqltypes
 
 GEN = ["registry"]
-RULE = ("random families: 1-4 context layers (20% exclusive; plain, MultiContext over 2-3 members, LinkedContext) x 0-4 overloads each, 25% of "
+RULE = ("[families are registered under python-style names (f, my_func, to_list_, ...) in contexts with the CamelCase convention and called by the "
+        "converted name or by the python-style name with use_convention=True; 30% of the layers hold several parameter specifications of ONE python "
+        "callable (clone + set_parameter); parameter types include the combinators discovered in yaqltypes (AnyOf, Chain, NotOfType) as type "
+        "instances shared within the family; 25% of the calls pass host objects with hostile comparison / truthiness protocols] "
+        "random families: 1-4 context layers (20% exclusive; plain, MultiContext over 2-3 members, LinkedContext) x 0-4 overloads each, 25% of "
         "them with a registration history on the same decorated callable (other convention first, strip_hidden_parameters / insert_parameter / "
         "clone on derived definitions; the model is fed with history-free definitions); signatures with 0-4 visible "
         "parameters, hidden engine/context anywhere, defaults, *args, **kwargs, keyword-only (multi-word names, explicit alias=), AnyOf, lazy Lambda/"
